@@ -64,13 +64,31 @@ func mentions(v ssa.Value, pred func(ssa.Value) bool, depth int, seen map[ssa.Va
 	// its result is computed from what its single return statement mentions
 	if call, ok := v.(*ssa.Call); ok {
 		if g := call.Call.StaticCallee(); g != nil && len(g.Blocks) >= 1 && len(g.Blocks) <= 6 && inModule(g) {
-			// (small accessors with an error branch too: func (vm) top() ([]byte, error))
+			// (small accessors with an error branch too: func (vm) top() ([]byte, error)) — but only
+			// when one single return statement yields a value: a helper that returns different things
+			// on different branches is not an accessor, and "mentions" must not mix its branches
+			var valueRets []*ssa.Return
 			for _, gb := range g.Blocks {
 				if ret, ok := gb.Instrs[len(gb.Instrs)-1].(*ssa.Return); ok {
+					isValue := false
 					for _, r := range ret.Results {
-						if mentions(r, pred, depth-1, seen) {
-							return true
+						if types.Identical(r.Type(), types.Universe.Lookup("error").Type()) {
+							continue // the error result does not make a return a value return
 						}
+						if k, isK := r.(*ssa.Const); isK && (k.IsNil() || k.Value == nil) {
+							continue // nil / zero placeholder
+						}
+						isValue = true
+					}
+					if isValue {
+						valueRets = append(valueRets, ret)
+					}
+				}
+			}
+			if len(valueRets) == 1 {
+				for _, r := range valueRets[0].Results {
+					if mentions(r, pred, depth-1, seen) {
+						return true
 					}
 				}
 			}
